@@ -83,8 +83,8 @@ theorem C16_leap_second_reads_as_59 :
 (`10⁸ ≤ t < 10¹⁰`, 1973-03-03 … 2286-11-20) the seconds, milliseconds, microseconds and
 nanoseconds spellings — with any sub-second remainder — all normalise to `t`.
 PARTIAL w.r.t. the property text, which quantifies over all instants: outside this band the
-digit-count heuristic assigns another unit (`C16_units_agree_fails`), and for negative
-instants remainders are truncated toward zero (`C16_units_negative_remainder_fails`). -/
+digit-count heuristic assigns another unit (`C16_units_agree_fails`); negative instants:
+`C16_units_negative_partial`. -/
 theorem C16_units_agree_partial (t : Int) (h1 : 10 ^ 8 ≤ t) (h2 : t < 10 ^ 10) :
     normalizeIntegerEpoch t = some t ∧
     (∀ r : Int, 0 ≤ r → r < 1000 → normalizeIntegerEpoch (t * 1000 + r) = some t) ∧
@@ -106,27 +106,27 @@ theorem C16_units_agree_fails :
     normalizeIntegerEpoch 99999999999 = some 99999999999 ∧
     normalizeIntegerEpoch 100000000000 = some 100000000 := by decide
 
-/-- Negative instants in the mirrored band: exact multiples of the unit are read correctly, a
-value with a sub-second remainder `r > 0` (instant `t + r/unit`, whole second `t`) comes out
-as `t + 1` — `i128 /` truncates toward zero. -/
+/-- Negative instants in the mirrored band (`−10¹⁰ < t < −10⁸`): every unit is recognised and a
+value with any sub-second remainder (instant `t + r/unit`) is read as its whole second `t` —
+the arms floor (`div_euclid`, repo commit 700d14d; before it they truncated toward zero and
+gave `t + 1`). PARTIAL only because of the band itself (`C16_units_agree_fails`). -/
 theorem C16_units_negative_partial (t : Int) (h1 : -(10 ^ 10) < t) (h2 : t < -(10 ^ 8)) :
     normalizeIntegerEpoch t = some t ∧
-    (∀ r : Int, 0 ≤ r → r < 1000 →
-      normalizeIntegerEpoch (t * 1000 + r) = some (if r = 0 then t else t + 1)) ∧
-    (∀ r : Int, 0 ≤ r → r < 1000000 →
-      normalizeIntegerEpoch (t * 1000000 + r) = some (if r = 0 then t else t + 1)) ∧
-    (∀ r : Int, 0 ≤ r → r < 1000000000 →
-      normalizeIntegerEpoch (t * 1000000000 + r) = some (if r = 0 then t else t + 1)) :=
+    (∀ r : Int, 0 ≤ r → r < 1000 → normalizeIntegerEpoch (t * 1000 + r) = some t) ∧
+    (∀ r : Int, 0 ≤ r → r < 1000000 → normalizeIntegerEpoch (t * 1000000 + r) = some t) ∧
+    (∀ r : Int, 0 ≤ r → r < 1000000000 → normalizeIntegerEpoch (t * 1000000000 + r) = some t) :=
   units_band_neg t h1 h2
 
-/-- Witness: the instant 1938-04-24T22:13:20.5Z (= −999 999 999.5 s). Its RFC 3339 spelling and
-its float-seconds spelling give −1 000 000 000 (floor), its millisecond spelling gives
-−999 999 999. -/
-theorem C16_units_negative_remainder_fails :
+/-- The instant 1938-04-24T22:13:20.5Z (= −999 999 999.5 s): its RFC 3339 spelling, its
+float-seconds spelling and its millisecond, microsecond and nanosecond spellings all give
+−1 000 000 000. (Former counterexample `C16_units_negative_remainder_fails`, repaired.) -/
+theorem C16_units_negative_spellings_agree :
     parseStr ['1','9','3','8','-','0','4','-','2','4','T','2','2',':','1','3',':','2','0','.','5','Z']
       = some (-1000000000) ∧
     normalizeJson (.float 0xC1CDCD64FFC00000) = .ok (-1000000000) ∧
-    normalizeJson (.int (-999999999500)) = .ok (-999999999) := by decide
+    normalizeJson (.int (-999999999500)) = .ok (-1000000000) ∧
+    normalizeJson (.int (-999999999500000)) = .ok (-1000000000) ∧
+    normalizeJson (.int (-999999999500000000)) = .ok (-1000000000) := by decide
 
 /-! ## The four sites -/
 
@@ -165,11 +165,11 @@ theorem C16_sites_integer_partial (n : Int) (h0 : 0 ≤ n) (h1 : n < 10 ^ 11) :
     have hfit : i64Min ≤ n ∧ n ≤ i64Max := by unfold i64Min i64Max; omega
     by_cases hz : n < 10
     · exact normalize_band n n 0 1 (Or.inr rfl) (by omega) (by decide) (by decide)
-        (by rw [tdiv_natden]; simp) hfit
+        (by simp) hfit
     · -- pick the digit count k + 1 with 10^k ≤ n < 10^(k+1), k = 1..10
       have hd : ∀ k : Nat, k < 40 → lookupUnit (k + 1) Snel.Gen.C16.unitTable = some 1 →
           10 ^ k ≤ n.natAbs → n.natAbs < 10 ^ (k + 1) → normalizeIntegerEpoch n = some n :=
-        fun k hk hl a b => normalize_band n n k 1 (Or.inl a) b hk hl (by rw [tdiv_natden]; simp) hfit
+        fun k hk hl a b => normalize_band n n k 1 (Or.inl a) b hk hl (by simp) hfit
       by_cases c1 : n < 10 ^ 2; · exact hd 1 (by decide) (by decide) (by omega) (by omega)
       by_cases c2 : n < 10 ^ 3; · exact hd 2 (by decide) (by decide) (by omega) (by omega)
       by_cases c3 : n < 10 ^ 4; · exact hd 3 (by decide) (by decide) (by omega) (by omega)
